@@ -86,6 +86,13 @@ func (ni *Native) getMatcher(tablename, expression string, kind ExpressionType) 
 	return matcher, nil
 }
 
+// HasMatcher tells whether a matcher is registered for the expression
+func (ni *Native) HasMatcher(tablename string, t ExpressionType, expr string) bool {
+	_, err := ni.getMatcher(tablename, expr, t)
+
+	return err == nil
+}
+
 func hashExpressionKey(s string) string {
 	return strings.Join(strings.Fields(s), " ")
 }
